@@ -121,10 +121,15 @@ func c14Model(r *rand.Rand) *openfgav1.AuthorizationModel {
 	if r.Intn(2) == 0 {
 		// attribution with hostile names
 		for _, td := range m.GetTypeDefinitions() {
+			k := r.Intn(10)
+			if k == 0 {
+				// a type left exactly as generated inside a modular model - possibly without any metadata at all
+				continue
+			}
 			if td.Metadata == nil {
 				td.Metadata = &openfgav1.Metadata{}
 			}
-			if r.Intn(5) == 0 {
+			if k == 1 {
 				// unattributed type inside a modular model; its relations may still come from other modules' extensions
 				td.Metadata.Module, td.Metadata.SourceInfo = "", nil
 			} else {
